@@ -391,7 +391,7 @@ func TestProp_C06_FirstUse(t *testing.T) {
 	for _, v := range []int{3, 2} {
 		for k := 0; k < 4; k++ {
 			for dir := 0; dir < 2; dir++ {
-				for _, x := range []int{0, 1, 4, 5, 8} { // bitflip, counter, MAC, truncated, next D-H value
+				for _, x := range []int{0, 1, 2, 3, 4, 5, 8} { // bitflip, counter, key ids, MAC, truncated, next D-H value
 					for _, l := range []int{1, 30, 77} {
 						idx++
 						if idx%sn != si {
